@@ -2,6 +2,7 @@ use crate::engine::driver::{Ctx, Property};
 pub mod common;
 pub mod c01;
 pub mod c02;
+pub mod c03;
 pub mod c04;
 pub mod c05;
 pub mod c06;
@@ -32,6 +33,7 @@ pub fn property(id: &str, ctx: &Ctx) -> Option<Property> {
     Some(match id {
         "C01" => c01::property(ctx),
         "C02" => c02::property(ctx),
+        "C03" => c03::property(ctx),
         "C04" => c04::property(ctx),
         "C05" => c05::property(ctx),
         "C06" => c06::property(ctx),
@@ -61,4 +63,4 @@ pub fn property(id: &str, ctx: &Ctx) -> Option<Property> {
     })
 }
 
-pub const ALL: &[&str] = &["C01", "C02", "C04", "C05", "C06", "C07", "C08", "C09", "C10", "C11", "C12", "C19", "C20", "C21", "C22", "C23", "C24", "C25", "C26", "C28", "C31", "C32", "C33", "C34", "C35", "C36", "C38"];
+pub const ALL: &[&str] = &["C01", "C02", "C03", "C04", "C05", "C06", "C07", "C08", "C09", "C10", "C11", "C12", "C19", "C20", "C21", "C22", "C23", "C24", "C25", "C26", "C28", "C31", "C32", "C33", "C34", "C35", "C36", "C38"];
